@@ -7,7 +7,8 @@ property theorems.
 
   sequential histories (put / get / ack / gc / close-reopen / crash after ANY prefix of the
   store trace of an in-flight Put), any length, any message sizes incl. page roll-over:
-    get_after_put, later_append_preserves, later_op_preserves, seq_dense, put_returns_next,
+    get_after_put (histories with SetAppendedSeq resets, each satisfying ResetOK), get_after_put_noreset,
+    reset_discards, later_append_preserves, later_op_preserves, seq_dense, put_returns_next,
     failed_put_preserves (a Put that returns an error — too large, or AcquirePage failed at a
     roll-over — leaves the queue untouched; histories may contain such Puts anywhere)
   interleavings of appender threads over the atomic steps alloc / write / persist:
@@ -95,6 +96,12 @@ theorem gc_alloc_structure_tie :
     C05.gcConds = expectedGcConds ∧ C05.gcAssigns = expectedGcAssigns ∧ C05.gcCallSeq = expectedGcCallSeq ∧
     C05.allocConds = expectedAllocConds ∧ C05.allocAssigns = expectedAllocAssigns := by decide
 
+/-- `SetAppendedSeq` stores the two sequences and the two meta words and nothing else (no page
+lookup / acquisition, no index page bookkeeping); `ReadBytes` returns a slice of the mapping -/
+theorem reset_readbytes_tie :
+    C05.setAppendedAccesses = expectedSetAppendedAccesses ∧ C05.setAppendedConds = expectedSetAppendedConds ∧
+    C05.setAppendedAssigns = expectedSetAppendedAssigns ∧ C05.readBytesBody = expectedReadBytesBody := by decide
+
 /-- `page.Factory.TruncatePages` removes a page iff its ID (the map key) is below the bound -/
 theorem truncate_pages_tie :
     C05.truncatePagesConds = expectedTruncatePagesConds ∧ C05.truncatePagesLoops = expectedTruncatePagesLoops ∧
@@ -104,13 +111,19 @@ theorem truncate_pages_tie :
 
 /-- Every message whose Put returned success is read back byte for byte under its own
 sequence for as long as it lies above the acknowledged position — after any history `post`
-of puts, gets, acks, GCs, close/reopens and crashes at any store prefix of a later Put, and
-whatever history `pre` came before. -/
+of puts, failed puts, gets, acks, GCs, close/reopens, crashes at any store prefix of a later
+Put and explicit resets (`SetAppendedSeq`), whatever history `pre` (resets included) came
+before. `OpsOK`: every reset in the history satisfies `ResetOK` in the state it is applied to.
+`Stays`: the sequence is readable (ack < s ≤ appended) in every state along `post` — a reset
+acknowledges everything at or below its target and discards everything above it by definition,
+so no message survives a reset; appends after a reset continue at target+1 and are covered
+(they are Puts of a later `pre`). -/
 theorem get_after_put (pre post : List Op) (m : Msg) (st2 : St) (s : Int)
+    (hpre : OpsOK St.init pre)
     (hput : put (run St.init pre) m = (st2, .ok s))
-    (hack : (run st2 post).q.acked < s) :
+    (hpost : OpsOK st2 post) (hstay : Stays st2 s.toNat post) :
     get (run st2 post) s = .ok m.bytes := by
-  have I1 := (run_inv init_inv pre).1
+  have I1 := run_inv_ok init_inv pre hpre
   by_cases hl : m.len ≤ dataPageSize
   · obtain ⟨I2, r2, r3, r4, _, cn⟩ := put_inv I1 m hl
     rw [hput] at I2 r2 r3 r4 cn
@@ -118,7 +131,33 @@ theorem get_after_put (pre post : List Op) (m : Msg) (st2 : St) (s : Int)
     have hs : s = (run St.init pre).q.appended + 1 := by injection r2
     have hap : -1 ≤ (run St.init pre).q.appended := Int.le_trans I1.core.ackLo I1.core.ackHi
     have hns := nextSeq_cast hap
-    obtain ⟨I3, p1, p2, p3⟩ := run_inv I2 post
+    have hsn : s.toNat = nextSeq (run St.init pre).q := by omega
+    rw [hsn] at hstay
+    obtain ⟨hr3, c3⟩ := run_content I2 post _ hpost hstay
+    have I3 := run_inv_ok I2 post hpost
+    have := get_readable I3.core hr3
+    rw [hns, ← hs] at this
+    rw [this, c3, cn]
+  · unfold put at hput
+    rw [if_pos (by omega)] at hput
+    cases hput
+
+/-- the same for histories without resets, where "readable all along" is just "above the
+acknowledged position at the end" (both positions only move up) -/
+theorem get_after_put_noreset (pre post : List Op) (m : Msg) (st2 : St) (s : Int)
+    (hpre : ∀ op ∈ pre, op.noReset) (hpost : ∀ op ∈ post, op.noReset)
+    (hput : put (run St.init pre) m = (st2, .ok s))
+    (hack : (run st2 post).q.acked < s) :
+    get (run st2 post) s = .ok m.bytes := by
+  have I1 := (run_inv init_inv pre hpre).1
+  by_cases hl : m.len ≤ dataPageSize
+  · obtain ⟨I2, r2, r3, r4, _, cn⟩ := put_inv I1 m hl
+    rw [hput] at I2 r2 r3 r4 cn
+    dsimp only at I2 r2 r3 r4 cn
+    have hs : s = (run St.init pre).q.appended + 1 := by injection r2
+    have hap : -1 ≤ (run St.init pre).q.appended := Int.le_trans I1.core.ackLo I1.core.ackHi
+    have hns := nextSeq_cast hap
+    obtain ⟨I3, p1, p2, p3⟩ := run_inv I2 post hpost
     have hr2 : Readable st2.q (nextSeq (run St.init pre).q) := by
       unfold Readable; have := I1.core.ackHi; omega
     have hr3 : Readable (run st2 post).q (nextSeq (run St.init pre).q) := by
@@ -130,13 +169,14 @@ theorem get_after_put (pre post : List Op) (m : Msg) (st2 : St) (s : Int)
     rw [if_pos (by omega)] at hput
     cases hput
 
-/-- No operation alters a message that stays above the acknowledged position. -/
+/-- No operation (other than a reset) alters a message that stays above the acknowledged position. -/
 theorem later_op_preserves (pre : List Op) (op : Op) (s : Int) (b : List Nat)
+    (hpre : OpsOK St.init pre) (hop : op.noReset)
     (hg : get (run St.init pre) s = .ok b)
     (hack : (step (run St.init pre) op).q.acked < s) :
     get (step (run St.init pre) op) s = .ok b := by
-  have I1 := (run_inv init_inv pre).1
-  obtain ⟨I2, p1, p2, p3⟩ := step_inv I1 op
+  have I1 := run_inv_ok init_inv pre hpre
+  obtain ⟨I2, p1, p2, p3⟩ := step_inv I1 op hop
   have hrange : ¬ (s > (run St.init pre).q.appended ∨ s ≤ (run St.init pre).q.acked) := by
     intro h
     simp only [Queue.get, Queue.getLoc] at hg
@@ -154,20 +194,33 @@ theorem later_op_preserves (pre : List Op) (op : Op) (s : Int) (b : List Nat)
 
 /-- A later append never alters an earlier message. -/
 theorem later_append_preserves (pre : List Op) (m' : Msg) (s : Int) (b : List Nat)
+    (hpre : OpsOK St.init pre)
     (hg : get (run St.init pre) s = .ok b) :
     get (put (run St.init pre) m').1 s = .ok b := by
-  have I1 := (run_inv init_inv pre).1
+  have I1 := run_inv_ok init_inv pre hpre
   have hrange : ¬ (s > (run St.init pre).q.appended ∨ s ≤ (run St.init pre).q.acked) := by
     intro h
     simp only [Queue.get, Queue.getLoc] at hg
     rw [if_pos h] at hg
     cases hg
-  apply later_op_preserves pre (.put m') s b hg
+  apply later_op_preserves pre (.put m') s b hpre trivial hg
   show (put (run St.init pre) m').1.q.acked < s
   by_cases hl : m'.len ≤ dataPageSize
   · obtain ⟨_, _, _, r4, _⟩ := put_inv I1 m' hl
     omega
   · unfold put; rw [if_pos (by omega)]; dsimp only; omega
+
+/-- `SetAppendedSeq(s)`: both sequences become `s` (the next successful Put returns `s+1` by
+`put_returns_next`), and nothing is readable any more — everything at or below `s` is
+acknowledged, everything above `s` is discarded by definition of the reset. -/
+theorem reset_discards (st : St) (s n : Int) :
+    (setAppended st s).q.appended = s ∧ (setAppended st s).q.acked = s ∧
+    get (setAppended st s) n = .outOfRange := by
+  refine ⟨rfl, rfl, ?_⟩
+  have h : n > (setAppended st s).q.appended ∨ n ≤ (setAppended st s).q.acked := by
+    show n > s ∨ n ≤ s
+    omega
+  simp only [Queue.get, Queue.getLoc, if_pos h]
 
 /-- A successful Put returns the previous appended sequence plus one and publishes it. -/
 theorem put_returns_next (st st' : St) (m : Msg) (s : Int) (h : put st m = (st', .ok s)) :
@@ -182,9 +235,9 @@ theorem put_returns_next (st st' : St) (m : Msg) (s : Int) (h : put st m = (st',
 /-- Sequence numbers are dense: after any history (including reopens, crashes and failed
 appends) the appended sequence is the number of messages that were completely appended, minus
 one — so the i-th completed append has sequence i, and every successful Put returns the next one. -/
-theorem seq_dense (ops : List Op) :
+theorem seq_dense (ops : List Op) (hnr : ∀ op ∈ ops, op.noReset) :
     (run St.init ops).q.appended = (appendCount St.init ops : Int) - 1 := by
-  have := run_appended init_inv ops
+  have := run_appended init_inv ops hnr
   have h0 : St.init.q.appended = -1 := by
     simp [St.init, openQ, Mem.empty, initDataPageIndex]
   omega
@@ -297,6 +350,26 @@ example :
     (run St.init ops).mem.dataLive = [2, 1] ∧ get (run St.init ops) 3 = .ok msgA.bytes ∧
       get (run St.init ops) 4 = .ok msgB.bytes ∧ getLoc (run St.init ops) 2 = .loc ⟨2, 0, 134217000⟩ := by
   refine ⟨by decide, by decide, by decide, by decide⟩
+
+/-- resets: forward onto the last slot of an index page two pages ahead (k·262144−1), an append
+(it lands in a third index page), reopen, a backward reset onto that append, another append:
+`ResetOK` holds at both resets, sequences continue at target+1, everything is read back. -/
+example :
+    let st1 := run St.init [.put msgA]
+    let st2 := (put (setAppended st1 524287) msgB).1
+    let st3 := reopen st2
+    let st4 := (put (setAppended st3 524288) msgC).1
+    ResetOK st1 524287 ∧ (put (setAppended st1 524287) msgB).2 = .ok 524288 ∧
+    get st3 524288 = .ok msgB.bytes ∧ ResetOK st3 524288 ∧
+    (put (setAppended st3 524288) msgC).2 = .ok 524289 ∧ get (reopen st4) 524289 = .ok msgC.bytes := by
+  refine ⟨⟨by decide, ?_, Or.inl (by decide)⟩, by decide, by decide, ⟨by decide, ?_, Or.inl (by decide)⟩,
+    by decide, by decide⟩
+  · intro n hn
+    have : n = 524287 := by omega
+    subst this; decide
+  · intro n hn
+    have : n = 524288 := by omega
+    subst this; decide
 
 /-! ## the property does not hold for the three-step structure -/
 
